@@ -194,7 +194,7 @@ def get_atom_lines_from_pdb(
         if tag in tags:
             alt_conf_tag = line[16]
             residue_name = line[12: 16]
-            residue_number = line[22: 26]
+            residue_number = line[21: 27]
             # check if we want this residue
             if line[17: 20] in ignore_residues:
                 continue
